@@ -70,10 +70,10 @@ def guess_rule(p):
 
 def point_frame(n, pattern, extras, scale=1.0):
     p = pressures(n, pattern)
-    l = [round((0.5 + 0.37 * i) * scale, 6) for i in range(n)]
+    l = [round((0.5 + 0.37 * i) * scale + 1.2345678e-5 * (i + 1), 8) for i in range(n)]
     if pattern in ('guessable', 'user-ads-on-hysteresis'):
         m = p.index(max(p))
-        l = [round((0.5 + 0.37 * min(i, m) + 0.05 * max(0, i - m)) * scale, 6) for i in range(n)]
+        l = [round((0.5 + 0.37 * min(i, m) + 0.05 * max(0, i - m)) * scale + 1.2345678e-5 * (i + 1), 8) for i in range(n)]
     d = {'pressure': p, 'loading': l, 'branch': branch_marks(n, pattern, p)}
     if extras in ('numeric', 'both'):
         d['enthalpy'] = [round(40.0 - 1.5 * i, 3) for i in range(n)]
